@@ -7,9 +7,9 @@ def before_diff(c):
     ag = open(os.path.join(vlib.REPO, "internal/agent/agent.go")).read()
     facts = [
         ("ManageRoute add = AddDynamicRoute then ensureExitHandler().AddAllowedRoute",
-         re.search(r'case "add":.*?a\.routeMgr\.AddDynamicRoute\(ipNet, metric\); err != nil \{\s*return nil, err\s*\}\s*a\.ensureExitHandler\(\)\.AddAllowedRoute\(ipNet\)', ag, re.S)),
+         re.search(r'case "add":.*?a\.routeMgr\.AddDynamicRoute\(ipNet, metric\); err != nil \{\s*return nil, err\s*\}\s*(verifhook\.At\([^)]*\)\s*)?a\.ensureExitHandler\(\)\.AddAllowedRoute\(ipNet\)', ag, re.S)),
         ("ManageRoute remove = RemoveDynamicRoute then exitHandler.RemoveAllowedRoute",
-         re.search(r'case "remove":.*?a\.routeMgr\.RemoveDynamicRoute\(ipNet\); err != nil \{\s*return nil, err\s*\}\s*if a\.exitHandler != nil \{\s*a\.exitHandler\.RemoveAllowedRoute\(ipNet\)', ag, re.S)),
+         re.search(r'case "remove":.*?a\.routeMgr\.RemoveDynamicRoute\(ipNet\); err != nil \{\s*return nil, err\s*\}\s*(verifhook\.At\([^)]*\)\s*)?if a\.exitHandler != nil \{\s*a\.exitHandler\.RemoveAllowedRoute\(ipNet\)', ag, re.S)),
         ("opens reach the exit handler only when one exists",
          re.search(r"if a\.exitHandler != nil \{\s*ctx := context\.Background\(\)[^}]*a\.exitHandler\.HandleStreamOpen\(", ag, re.S)),
         ("config routes become local routes of the manager whether or not the exit is enabled",
@@ -17,6 +17,16 @@ def before_diff(c):
         ("peer-disconnect clean-up = the four routeMgr.HandlePeerDisconnect* calls the harness accessor replays",
          re.search(r"a\.cleanupRelaysForPeer\(peerID\)\s*(//[^\n]*\n\s*)*a\.routeMgr\.HandlePeerDisconnect\(peerID\)\s*a\.routeMgr\.HandlePeerDisconnectDomain\(peerID\)\s*a\.routeMgr\.HandlePeerDisconnectForward\(peerID\)\s*a\.routeMgr\.HandlePeerDisconnectAgent\(peerID\)", ag)),
     ]
+    # the allow list and the dynamic-route maps are mutated from ManageRoute only
+    import glob
+    sites = {}
+    for f in glob.glob(os.path.join(vlib.REPO, "internal", "**", "*.go"), recursive=True) + glob.glob(os.path.join(vlib.REPO, "cmd", "**", "*.go"), recursive=True):
+        if f.endswith("_test.go") or "/zz_verif" in f:
+            continue
+        for m in re.finditer(r"\.(AddAllowedRoute|RemoveAllowedRoute|AddDynamicRoute|RemoveDynamicRoute)\(", open(f).read()):
+            sites.setdefault(m.group(1), []).append(os.path.relpath(f, vlib.REPO))
+    only = all(sites.get(k) == ["internal/agent/agent.go"] for k in ("AddAllowedRoute", "RemoveAllowedRoute", "AddDynamicRoute", "RemoveDynamicRoute"))
+    facts.append(("AddAllowedRoute / RemoveAllowedRoute / AddDynamicRoute / RemoveDynamicRoute are each called from one place, in agent.go (ManageRoute)", only))
     for name, ok in facts:
         c.oblige("source-fact: " + name, "tie", bool(ok), "" if ok else "pattern not found in the current source")
 
@@ -26,6 +36,11 @@ PROP = dict(
     engines=["c19"],
     go_tags=["c19"],
     gen_files={},
+    extract_files={
+        "MM/Gen/LockC19a.lean": {"cmd": ["go", "run", "{VERIF}/tools/lockshape.go", "LockC19a", "{REPO}/internal/agent/agent.go", "Agent.ManageRoute", "routeManageMu", "routeMgr,exitHandler"]},
+        "MM/Gen/LockC19h.lean": {"cmd": ["go", "run", "{VERIF}/tools/lockshape.go", "LockC19h", "{REPO}/internal/exit/handler.go", "Handler.AddAllowedRoute,Handler.RemoveAllowedRoute,Handler.isAllowed,Handler.AllowedRouteCount", "routesMu", "cfg"]},
+        "MM/Gen/LockC19m.lean": {"cmd": ["go", "run", "{VERIF}/tools/lockshape.go", "LockC19m", "{REPO}/internal/routing/manager.go", "Manager.AddDynamicRoute,Manager.RemoveDynamicRoute,Manager.GetDynamicRoutes,Manager.AddLocalRoute", "mu", "dynamicRoutes,localRoutes"]},
+    },
     lean_modules=["MM.Props.C19"],
     theorems=[
         "MM.C19.contains_key",
@@ -33,12 +48,18 @@ PROP = dict(
         "MM.C19.C19_dial_permitted",
         "MM.C19.C19_empty_denies",
         "MM.C19.C19_removed_is_gone",
+        "MM.C19.add_is_two_steps",
+        "MM.C19.remove_is_two_steps",
+        "MM.C19.C19_unserialized_refuted",
+        "MM.C19.C19_manage_route_atomic",
+        "MM.C19.C19_steps_atomic",
     ],
     spec=True,
     timeout=1800,
     rule="case = a real Agent (agent.New) with generated exit config (enabled?, 0-3 networks, 0-3 domain patterns) + a history of 4-14 (10%: 40-80) ops over a 3-network working set: "
          "ManageRoute add (metrics 0,1,5,7,65535; re-adds/updates frequent)/remove, opens (IPv4, IPv6, IPv4-mapped literals; names resolved through the handler's cache) dialled for real to loopback listeners, "
-         "state dumps (dynamic routes + allow list); between ManageRoute calls the routing table is perturbed the way mesh traffic can: ROUTE_WITHDRAW / ROUTE_ADVERTISE frames from peers through Agent.processFrame "
+         "state dumps (dynamic routes + allow list); concurrency: `sched` = two ManageRoute calls on one network in a fixed schedule (one held at the verif scheduling point between its two steps while the opposite call runs) "
+         "and `race` = 2-4 goroutines x 20-60 (add; remove) of the same network; between ManageRoute calls the routing table is perturbed the way mesh traffic can: ROUTE_WITHDRAW / ROUTE_ADVERTISE frames from peers through Agent.processFrame "
          "(naming this agent or a peer as origin), peer-disconnect clean-up, stale expiry; every add/remove answer carries the manager's own dynamic-route list and the spec judges dials and the allow list against THAT list whatever the API answered; networks: nested/overlapping 127/8 nets, non-canonical host bits, IPv4-mapped spellings incl. ::ffff:0:0/96, ::1/128, ::/0, off-host nets; "
          "non-trivial = a dial happened, a route op succeeded/was refused, or a state dump",
     nontrivial=lambda op, out: not op.startswith("reset") and out != "denied",
@@ -49,7 +70,8 @@ PROP = dict(
         "DNS resolution is the resolver's answer (parameter of the model); T-diff injects answers through the handler's own cache",
     ],
     assumptions=[
-        "route-management operations and opens are sequential (ManageRoute's two steps are not atomic with respect to concurrent ManageRoute calls)",
+        "concurrent ManageRoute calls are serialized by Agent.routeManageMu (fixes/C19-serialize-manage-route.patch; lock shape regenerated by tools/lockshape.go and decided in C19_manage_route_atomic / C19_steps_atomic), so a concurrent history is a sequence of the atomic add/remove of the model; goroutine scheduling inside a critical section and sync.Mutex itself are trusted",
+        "an open that runs between the two steps of a concurrent remove still sees the network (the remove takes effect for opens when its allow-list step is done)",
         "non-ASCII domain names/patterns (Unicode case mapping of strings.ToLower) are outside the model",
     ],
     manifest=dict(
